@@ -282,6 +282,42 @@ func c16Case(c *Ctx) {
 				}
 			}()
 			c.Count("knob_excursions", 3)
+			// the presets are exported variables: a caller who repoints one of them (a house style for one
+			// separator) has not asked for any other preset to change
+			vars := map[string]*spg.SFFunction{"SFNone": &spg.SFNone, "SFDigits1": &spg.SFDigits1, "SFDigits2": &spg.SFDigits2,
+				"SFDigitsNoAmbiguous1": &spg.SFDigitsNoAmbiguous1, "SFDigitsNoAmbiguous2": &spg.SFDigitsNoAmbiguous2,
+				"SFSymbols": &spg.SFSymbols, "SFDigitsSymbols": &spg.SFDigitsSymbols}
+			for _, changed := range presetNames {
+				func() {
+					saved := *vars[changed]
+					defer func() { *vars[changed] = saved }()
+					*vars[changed] = func() (string, spg.FloatE) { return "--", 0 }
+					for _, other := range presetNames {
+						if other == changed {
+							continue
+						}
+						valid := map[string]bool{"": other == "SFNone"}
+						want := 0.0
+						if pr, ok := presetRecipe(other); ok {
+							sem := oracle.CharSemOf(pr)
+							all, _ := sem.EnumerateValid(100000)
+							for _, v := range all {
+								valid[v] = true
+							}
+							want = oracle.Log2Big(sem.Count(pr.Length))
+						}
+						for i := 0; i < 12; i++ {
+							v, e := (*vars[other])()
+							c.Exec(1)
+							if !valid[v] || math.Abs(float64(e)-want) > 1e-4 {
+								c.Violate("preset-"+other, fmt.Sprintf("after the caller assigned another function to spg.%s, spg.%s returned %q declaring %v bits; it is documented to yield one of %d values with %.4f bits", changed, other, v, e, len(valid)-btoi(other != "SFNone"), want), nil)
+								return
+							}
+						}
+					}
+				}()
+			}
+			c.Count("preset_variable_reassignments", int64(len(presetNames)))
 			// a caller-written separator function that panics (as the library itself does when the source
 			// fails) inside Generate and inside Entropy; the caller recovers; then the presets are used
 			func() {
